@@ -1,7 +1,19 @@
+/-
+  C08 on the reactor model, for every accepted round (every sequence of
+  environment decisions the real loop can exhibit and the acceptor recognises).
+-/
 import Gnet.Spec.ReactorSpec
+import Gnet.Proofs.ReactorLife
 namespace Gnet.Props.C08
 open Gnet.Reactor
 
-theorem init_names (cfg : Cfg) : NamesNodup { cfg := cfg } := by simp [NamesNodup]
+/-- one datagram, one event: an accepted UDP dispatch hands exactly the received payload to
+    exactly one OnTraffic whose RemoteAddr is the datagram's source -/
+theorem udp_one_event (fuel : Nat) (l : String) (s s' : RState) (r : Ret) (rest : List Tok)
+    (n : Int) (src : String) (data : List Nat) (t : Tok)
+    (ht : s.toks = .sysRecvfrom l n "nil" src data :: t :: rest)
+    (h : (exec fuel (.readUDP l)).run s = .ok (r, s')) :
+    ∃ en, t = .cb "OnTraffic" l data.length en src :=
+  Proofs.ReactorLife.udp_one_event fuel l s s' r rest n src data t ht h
 
 end Gnet.Props.C08
